@@ -1,0 +1,272 @@
+// Copyright The gittuf Authors
+// SPDX-License-Identifier: Apache-2.0
+
+//go:build verif
+
+// Machine-checked contracts (gvc) for the RSL entry model, readers and
+// recorders. Comment-only; read under the "verif" build tag.
+
+package rsl
+
+//@ # ---- what a commit message means (specification of the parsers) ----------
+//@ # Uninterpreted functions of the text: a text has at most one meaning.
+//@ spec pOK(text string) bool
+//@ spec pKind(text string) int
+//@ spec pRef(text string) string
+//@ spec pTarget(text string) Hash
+//@ spec pNumber(text string) uint64
+//@ spec pSkip(text string) bool
+//@ spec pNIDs(text string) int
+//@ spec pIDAt(text string, i int) Hash
+//@ spec pMsg(text string) string
+//@ spec pUpRepo(text string) string
+//@ spec pUpEntry(text string) Hash
+//@ axiom pKindRange: forall(t, string, pOK(t) ==> 1 <= pKind(t) && pKind(t) <= 3)
+//@ axiom pNIDsPos: forall(t, string, pOK(t) && pKind(t) == 2 ==> pNIDs(t) >= 1)
+
+//@ define refersTo(a *AnnotationEntry, id Hash) bool = exists j :: 0 <= j && j < len(a.RSLEntryIDs) && hashEq(a.RSLEntryIDs[j], id)
+
+//@ # entryIs(e, id, text): e is exactly the parsed form of text, recorded under id
+//@ define entryIs(e Entry, id Hash, text string) bool = pOK(text) && e != nil && e.GetID() == id && e.GetNumber() == pNumber(text)
+//@ ..  && (pKind(text) == 1 <==> typeIs(e, *ReferenceEntry)) && (pKind(text) == 2 <==> typeIs(e, *AnnotationEntry)) && (pKind(text) == 3 <==> typeIs(e, *PropagationEntry))
+//@ ..  && (pKind(text) == 1 ==> as(e, *ReferenceEntry) != nil && as(e, *ReferenceEntry).RefName == pRef(text) && as(e, *ReferenceEntry).TargetID == pTarget(text))
+//@ ..  && (pKind(text) == 3 ==> as(e, *PropagationEntry) != nil && as(e, *PropagationEntry).RefName == pRef(text) && as(e, *PropagationEntry).TargetID == pTarget(text)
+//@ ..       && as(e, *PropagationEntry).UpstreamRepository == pUpRepo(text) && as(e, *PropagationEntry).UpstreamEntryID == pUpEntry(text))
+//@ ..  && (pKind(text) == 2 ==> as(e, *AnnotationEntry) != nil && as(e, *AnnotationEntry).Skip == pSkip(text) && len(as(e, *AnnotationEntry).RSLEntryIDs) == pNIDs(text)
+//@ ..       && (forall i :: 0 <= i && i < pNIDs(text) ==> as(e, *AnnotationEntry).RSLEntryIDs[i] == pIDAt(text, i)))
+
+//@ # entryAt(e, id): e is the entry stored in commit id
+//@ define entryAt(e Entry, id Hash) bool = entryIs(e, id, cmsg(id))
+
+//@ # numbering rule between an entry and its parent
+//@ define numberRule(n uint64, pn uint64) bool = ((n == 0 || n == 1) ==> pn == 0) && (n > 1 ==> pn == n - 1)
+//@ # linkOK(id): stepping from id to its parent is legitimate
+//@ define linkOK(id Hash) bool = cnpar(id) == 1 && pOK(cmsg(cpar(id, 0))) && pOK(cmsg(id)) && numberRule(pNumber(cmsg(id)), pNumber(cmsg(cpar(id, 0))))
+
+//@ # ---- process-wide memo (monitor-style contracts: writers establish, readers assume) ----
+//@ func (*rslCache).getEntry -> (entry, has)
+//@   trusted
+//@   pure
+//@   ensures has ==> entryAt(entry, id)
+//@   ensures !has ==> entry == nil
+//@ func (*rslCache).setEntry
+//@   trusted
+//@   pure
+//@   requires memoEntry: entryAt(entry, id)
+//@ func (*rslCache).getParent -> (parentID, has, err)
+//@   trusted
+//@   pure
+//@   ensures err == nil && has ==> linkOK(id) && parentID == cpar(id, 0)
+//@ func (*rslCache).setParent
+//@   trusted
+//@   pure
+//@   requires memoParent: linkOK(id) && parentID == cpar(id, 0)
+
+//@ # ---- parser (proved in the C14 unit; used here by contract) ----
+//@ func parseRSLEntryText -> (e, err)
+//@   trusted
+//@   assigns fresh(ReferenceEntry.*), fresh(AnnotationEntry.*), fresh(PropagationEntry.*), fresh(elems Hash)
+//@   ensures okIffSpec: err == nil <==> pOK(text)
+//@   ensures fields: err == nil ==> entryIs(e, id, text)
+//@   ensures nilOnError: err != nil ==> e == nil
+//@   ensures notNotFound: !errIs(err, ErrRSLEntryNotFound)
+
+//@ func [C04,C03] GetEntry -> (e, err)
+//@   requires storer != nil
+//@   assigns ghost faults, fresh(ReferenceEntry.*), fresh(AnnotationEntry.*), fresh(PropagationEntry.*), fresh(elems Hash)
+//@   ensures isEntry: err == nil ==> entryAt(e, entryID)
+//@   ensures nilOnError: err != nil ==> e == nil
+//@   ensures failClosed: !pOK(cmsg(entryID)) ==> err != nil
+//@   ensures faultReported: faults > old(faults) ==> err != nil
+//@   ensures faultsMonotone: faults >= old(faults)
+//@   ensures notFoundOnlyByFault: errIs(err, ErrRSLEntryNotFound) ==> faults > old(faults)
+
+//@ func [C04,C03] GetLatestEntry -> (e, err)
+//@   requires storer != nil
+//@   assigns ghost faults, fresh(ReferenceEntry.*), fresh(AnnotationEntry.*), fresh(PropagationEntry.*), fresh(elems Hash)
+//@   ensures isTip: err == nil ==> refSet[Ref] && entryAt(e, refTip[Ref])
+//@   ensures nilOnError: err != nil ==> e == nil
+//@   ensures empty: !refSet[Ref] ==> err != nil
+//@   ensures failClosed: refSet[Ref] && !pOK(cmsg(refTip[Ref])) ==> err != nil
+//@   ensures faultReported: faults > old(faults) ==> err != nil
+//@   ensures faultsMonotone: faults >= old(faults)
+//@   ensures notFoundMeansEmpty: errIs(err, ErrRSLEntryNotFound) ==> !refSet[Ref] && faults == old(faults)
+
+//@ func [C04] GetParentForEntry -> (p, err)
+//@   requires storer != nil
+//@   requires genuine: entry != nil && entryAt(entry, entry.GetID())
+//@   assigns ghost faults, fresh(ReferenceEntry.*), fresh(AnnotationEntry.*), fresh(PropagationEntry.*), fresh(elems Hash)
+//@   ensures parent: err == nil ==> linkOK(entry.GetID()) && entryAt(p, cpar(entry.GetID(), 0))
+//@   ensures nilOnError: err != nil ==> p == nil
+//@   ensures failClosed: !linkOK(entry.GetID()) ==> err != nil
+//@   ensures faultReported: faults > old(faults) ==> err != nil
+//@   ensures faultsMonotone: faults >= old(faults)
+
+//@ func [C04] (*AnnotationEntry).RefersTo -> (r)
+//@   pure
+//@   requires a != nil
+//@   ensures iff: r <==> refersTo(a, entryID)
+//@   loop 1:
+//@     invariant range: -1 <= rangeindex && rangeindex < len(a.RSLEntryIDs) || (rangeindex == -1)
+//@     invariant noneSoFar: forall j :: 0 <= j && j <= rangeindex ==> !hashEq(a.RSLEntryIDs[j], entryID)
+
+//@ define skippedBy(e *ReferenceEntry, anns []*AnnotationEntry) bool = exists j :: 0 <= j && j < len(anns) && anns[j] != nil && refersTo(anns[j], e.ID) && anns[j].Skip
+//@ define noNil(anns []*AnnotationEntry) bool = forall j :: 0 <= j && j < len(anns) ==> anns[j] != nil
+
+//@ func [C04] (*ReferenceEntry).SkippedBy -> (r)
+//@   pure
+//@   requires e != nil && noNil(annotations)
+//@   ensures iff: r <==> skippedBy(e, annotations)
+//@   loop 1:
+//@     invariant noneSoFar: forall j :: 0 <= j && j <= rangeindex ==> !(refersTo(annotations[j], e.ID) && annotations[j].Skip)
+
+//@ func [C04] filterAnnotationsForRelevantAnnotations -> (r)
+//@   requires noNil(allAnnotations)
+//@   assigns fresh(elems *AnnotationEntry)
+//@   ensures onlyRelevant: forall i :: 0 <= i && i < len(r) ==> r[i] != nil && refersTo(r[i], entryID)
+//@   ensures subset: forall i :: 0 <= i && i < len(r) ==> (exists j :: 0 <= j && j < len(allAnnotations) && allAnnotations[j] == r[i])
+//@   ensures complete: forall j :: 0 <= j && j < len(allAnnotations) && refersTo(allAnnotations[j], entryID) ==> (exists i :: 0 <= i && i < len(r) && r[i] == allAnnotations[j])
+//@   ensures nilWhenEmpty: (forall j :: 0 <= j && j < len(allAnnotations) ==> !refersTo(allAnnotations[j], entryID)) ==> r == nil
+//@   loop 1:
+//@     invariant range: -1 <= rangeindex
+//@     invariant onlyRelevant: forall i :: 0 <= i && i < len(annotations) ==> annotations[i] != nil && refersTo(annotations[i], entryID)
+//@     invariant subset: forall i :: 0 <= i && i < len(annotations) ==> (exists j :: 0 <= j && j <= rangeindex && allAnnotations[j] == annotations[i])
+//@     invariant complete: forall j :: 0 <= j && j <= rangeindex && refersTo(allAnnotations[j], entryID) ==> (exists i :: 0 <= i && i < len(annotations) && annotations[i] == allAnnotations[j])
+//@     invariant nonNilSlice: annotations != nil
+
+//@ func [C04] isRelevantGittufRef -> (r)
+//@   pure
+//@   ensures iff: r <==> (strings.HasPrefix(refName, gittufNamespacePrefix) && refName != gittufPolicyStagingRef)
+
+//@ # ---- recording (C03 append-only chain, C16 faults, C17 by the storer's atomic Commit) ----
+//@ # appended(m): exactly one commit with message m was put on top of the previous RSL tip, nothing else moved
+//@ define appended(m string) bool = refSet[Ref] && !old(objSet)[refTip[Ref]] && cmsg(refTip[Ref]) == m
+//@ ..  && (old(refSet)[Ref] ==> cnpar(refTip[Ref]) == 1 && cpar(refTip[Ref], 0) == old(refTip)[Ref])
+//@ ..  && (!old(refSet)[Ref] ==> cnpar(refTip[Ref]) == 0)
+//@ ..  && refTip == upd(old(refTip), Ref, refTip[Ref]) && refSet == upd(old(refSet), Ref, true)
+//@ define storeUnchanged() bool = refTip == old(refTip) && refSet == old(refSet) && objSet == old(objSet)
+//@ # the number the next entry must carry
+//@ define nextNumber() uint64 = ite(refSet[Ref], pNumber(cmsg(refTip[Ref])) + 1, 1)
+
+//@ func [C03,C16,C17] commitEntry -> (err)
+//@   requires storer != nil
+//@   assigns ghost faults, ghost refTip, ghost refSet, ghost objSet
+//@   ensures appendsOne: err == nil ==> appended(message)
+//@   ensures failureLeavesNoTrace: err != nil ==> storeUnchanged()
+//@   ensures faultReported: faults > old(faults) ==> err != nil
+//@   ensures faultsMonotone: faults >= old(faults)
+
+//@ func [C03,C16,C17] commitEntryUsingSpecificKey -> (err)
+//@   requires storer != nil
+//@   assigns ghost faults, ghost refTip, ghost refSet, ghost objSet
+//@   ensures appendsOne: err == nil ==> appended(message)
+//@   ensures failureLeavesNoTrace: err != nil ==> storeUnchanged()
+//@   ensures faultReported: faults > old(faults) ==> err != nil
+//@   ensures faultsMonotone: faults >= old(faults)
+
+//@ func [C03,C16] (*ReferenceEntry).setEntryNumber -> (err)
+//@   requires e != nil && storer != nil
+//@   assigns ghost faults, e.Number, fresh(ReferenceEntry.*), fresh(AnnotationEntry.*), fresh(PropagationEntry.*), fresh(elems Hash)
+//@   ensures follows: err == nil ==> e.Number == nextNumber()
+//@   ensures faultReported: faults > old(faults) ==> err != nil
+//@   ensures faultsMonotone: faults >= old(faults)
+//@   ensures storeUntouched: storeUnchanged()
+
+//@ func [C03,C16] (*AnnotationEntry).setEntryNumber -> (err)
+//@   requires a != nil && storer != nil
+//@   assigns ghost faults, a.Number, fresh(ReferenceEntry.*), fresh(AnnotationEntry.*), fresh(PropagationEntry.*), fresh(elems Hash)
+//@   ensures follows: err == nil ==> a.Number == nextNumber()
+//@   ensures faultReported: faults > old(faults) ==> err != nil
+//@   ensures faultsMonotone: faults >= old(faults)
+//@   ensures storeUntouched: storeUnchanged()
+
+//@ func [C03,C16] (*PropagationEntry).setEntryNumber -> (err)
+//@   requires e != nil && storer != nil
+//@   assigns ghost faults, e.Number, fresh(ReferenceEntry.*), fresh(AnnotationEntry.*), fresh(PropagationEntry.*), fresh(elems Hash)
+//@   ensures follows: err == nil ==> e.Number == nextNumber()
+//@   ensures faultReported: faults > old(faults) ==> err != nil
+//@   ensures faultsMonotone: faults >= old(faults)
+//@   ensures storeUntouched: storeUnchanged()
+
+//@ # What the recorded text means (discharged by the C14 round-trip unit; assumed elsewhere).
+//@ func (*ReferenceEntry).createCommitMessage -> (m, err)
+//@   trusted
+//@   pure
+//@   ensures err == nil && pOK(m) && pKind(m) == 1 && pRef(m) == e.RefName && pTarget(m) == e.TargetID
+//@   ensures pNumber(m) == ite(includeNumber, e.Number, 0)
+//@ func (*PropagationEntry).createCommitMessage -> (m, err)
+//@   trusted
+//@   pure
+//@   ensures err == nil && pOK(m) && pKind(m) == 3 && pRef(m) == e.RefName && pTarget(m) == e.TargetID && pUpRepo(m) == e.UpstreamRepository && pUpEntry(m) == e.UpstreamEntryID
+//@   ensures pNumber(m) == ite(includeNumber, e.Number, 0)
+//@ func (*AnnotationEntry).createCommitMessage -> (m, err)
+//@   trusted
+//@   pure
+//@   ensures err == nil ==> pOK(m) && pKind(m) == 2 && pSkip(m) == a.Skip && pNIDs(m) == len(a.RSLEntryIDs) && pNumber(m) == ite(includeNumber, a.Number, 0)
+//@   ensures err == nil ==> forall i :: 0 <= i && i < len(a.RSLEntryIDs) ==> pIDAt(m, i) == a.RSLEntryIDs[i]
+
+//@ # recorded(kind): one well-formed entry of that kind, numbered after its parent, is the new tip
+//@ define recordedOK() bool = refSet[Ref] && pOK(cmsg(refTip[Ref])) && !old(objSet)[refTip[Ref]]
+//@ ..  && (old(refSet)[Ref] ==> cnpar(refTip[Ref]) == 1 && cpar(refTip[Ref], 0) == old(refTip)[Ref] && pNumber(cmsg(refTip[Ref])) == pNumber(cmsg(old(refTip)[Ref])) + 1)
+//@ ..  && (!old(refSet)[Ref] ==> cnpar(refTip[Ref]) == 0 && pNumber(cmsg(refTip[Ref])) == 1)
+//@ ..  && refTip == upd(old(refTip), Ref, refTip[Ref]) && refSet == upd(old(refSet), Ref, true)
+
+//@ func [C03,C16,C17] (*ReferenceEntry).Commit -> (err)
+//@   requires e != nil && storer != nil
+//@   assigns ghost faults, ghost refTip, ghost refSet, ghost objSet, e.Number, fresh(ReferenceEntry.*), fresh(AnnotationEntry.*), fresh(PropagationEntry.*), fresh(elems Hash)
+//@   ensures recorded: err == nil ==> recordedOK() && pKind(cmsg(refTip[Ref])) == 1 && pRef(cmsg(refTip[Ref])) == e.RefName && pTarget(cmsg(refTip[Ref])) == e.TargetID
+//@   ensures failureLeavesNoTrace: err != nil ==> storeUnchanged()
+//@   ensures faultReported: faults > old(faults) ==> err != nil
+//@   ensures faultsMonotone: faults >= old(faults)
+
+//@ func [C03,C16,C17] (*ReferenceEntry).CommitUsingSpecificKey -> (err)
+//@   requires e != nil && storer != nil
+//@   assigns ghost faults, ghost refTip, ghost refSet, ghost objSet, e.Number, fresh(ReferenceEntry.*), fresh(AnnotationEntry.*), fresh(PropagationEntry.*), fresh(elems Hash)
+//@   ensures recorded: err == nil ==> recordedOK() && pKind(cmsg(refTip[Ref])) == 1 && pRef(cmsg(refTip[Ref])) == e.RefName && pTarget(cmsg(refTip[Ref])) == e.TargetID
+//@   ensures failureLeavesNoTrace: err != nil ==> storeUnchanged()
+//@   ensures faultReported: faults > old(faults) ==> err != nil
+//@   ensures faultsMonotone: faults >= old(faults)
+
+//@ func [C03,C16,C17] (*PropagationEntry).Commit -> (err)
+//@   requires e != nil && storer != nil
+//@   assigns ghost faults, ghost refTip, ghost refSet, ghost objSet, e.Number, fresh(ReferenceEntry.*), fresh(AnnotationEntry.*), fresh(PropagationEntry.*), fresh(elems Hash)
+//@   ensures recorded: err == nil ==> recordedOK() && pKind(cmsg(refTip[Ref])) == 3 && pRef(cmsg(refTip[Ref])) == e.RefName && pTarget(cmsg(refTip[Ref])) == e.TargetID
+//@   ensures failureLeavesNoTrace: err != nil ==> storeUnchanged()
+//@   ensures faultReported: faults > old(faults) ==> err != nil
+//@   ensures faultsMonotone: faults >= old(faults)
+
+//@ func [C03,C16,C17] (*PropagationEntry).CommitUsingSpecificKey -> (err)
+//@   requires e != nil && storer != nil
+//@   assigns ghost faults, ghost refTip, ghost refSet, ghost objSet, e.Number, fresh(ReferenceEntry.*), fresh(AnnotationEntry.*), fresh(PropagationEntry.*), fresh(elems Hash)
+//@   ensures recorded: err == nil ==> recordedOK() && pKind(cmsg(refTip[Ref])) == 3 && pRef(cmsg(refTip[Ref])) == e.RefName && pTarget(cmsg(refTip[Ref])) == e.TargetID
+//@   ensures failureLeavesNoTrace: err != nil ==> storeUnchanged()
+//@   ensures faultReported: faults > old(faults) ==> err != nil
+//@   ensures faultsMonotone: faults >= old(faults)
+
+//@ define allEntries(a *AnnotationEntry) bool = forall i :: 0 <= i && i < len(a.RSLEntryIDs) ==> pOK(cmsg(a.RSLEntryIDs[i]))
+
+//@ func [C03,C16,C17] (*AnnotationEntry).Commit -> (err)
+//@   requires a != nil && storer != nil
+//@   assigns ghost faults, ghost refTip, ghost refSet, ghost objSet, a.Number, fresh(ReferenceEntry.*), fresh(AnnotationEntry.*), fresh(PropagationEntry.*), fresh(elems Hash)
+//@   ensures recorded: err == nil ==> recordedOK() && pKind(cmsg(refTip[Ref])) == 2 && pSkip(cmsg(refTip[Ref])) == a.Skip
+//@   ensures refusedUnlessEntries: err == nil ==> allEntries(a)
+//@   ensures failureLeavesNoTrace: err != nil ==> storeUnchanged()
+//@   ensures faultReported: faults > old(faults) ==> err != nil
+//@   ensures faultsMonotone: faults >= old(faults)
+//@   loop 1:
+//@     invariant checked: forall i :: 0 <= i && i <= rangeindex ==> pOK(cmsg(a.RSLEntryIDs[i]))
+//@     invariant untouched: storeUnchanged() && a.Number == old(a.Number) && a.RSLEntryIDs == old(a.RSLEntryIDs) && a.Skip == old(a.Skip)
+//@     invariant noFaultYet: faults == old(faults)
+
+//@ func [C03,C16,C17] (*AnnotationEntry).CommitUsingSpecificKey -> (err)
+//@   requires a != nil && storer != nil
+//@   assigns ghost faults, ghost refTip, ghost refSet, ghost objSet, a.Number, fresh(ReferenceEntry.*), fresh(AnnotationEntry.*), fresh(PropagationEntry.*), fresh(elems Hash)
+//@   ensures recorded: err == nil ==> recordedOK() && pKind(cmsg(refTip[Ref])) == 2 && pSkip(cmsg(refTip[Ref])) == a.Skip
+//@   ensures refusedUnlessEntries: err == nil ==> allEntries(a)
+//@   ensures failureLeavesNoTrace: err != nil ==> storeUnchanged()
+//@   ensures faultReported: faults > old(faults) ==> err != nil
+//@   ensures faultsMonotone: faults >= old(faults)
+//@   loop 1:
+//@     invariant checked: forall i :: 0 <= i && i <= rangeindex ==> pOK(cmsg(a.RSLEntryIDs[i]))
+//@     invariant untouched: storeUnchanged() && a.Number == old(a.Number) && a.RSLEntryIDs == old(a.RSLEntryIDs) && a.Skip == old(a.Skip)
+//@     invariant noFaultYet: faults == old(faults)
